@@ -5,15 +5,15 @@ func init() {
 		ID:    "C07",
 		Title: "Every HTTP request gets a well-formed response; none can crash the gateway",
 		Kernels: []Kernel{
-			{Name: "parseRequest", Pkg: "requests", Files: []string{"requests/c07.go"}, Entry: "VerifParseRequest", Mode: "seq",
+			{Name: "parseRequest", Pkg: "requests", Files: []string{"requests/c07.go"}, Entry: "VerifParseRequest", Mode: "seq", Native: true,
 				Quick: map[string]int{"maxlen": 2}, Thorough: map[string]int{"maxlen": 3},
 				Reach:     []string{"rejected", "accepted batch", "accepted single"},
 				Functions: []string{"requests.parseRequest", "requests.IsBatchMode"}},
-			{Name: "injectFile", Pkg: "requests", Files: []string{"requests/c07.go"}, Entry: "VerifInjectFile", Mode: "seq",
+			{Name: "injectFile", Pkg: "requests", Files: []string{"requests/c07.go"}, Entry: "VerifInjectFile", Mode: "seq", Native: true,
 				Quick: map[string]int{"maxseg": 4}, Thorough: map[string]int{"maxseg": 5},
 				Reach:     []string{"path rejected", "upload injected"},
 				Functions: []string{"requests.(*ParseRequestResponse).injectFile"}},
-			{Name: "handler-corners", Pkg: ".", Files: []string{"root/fed.go", "root/c01.go", "root/c16.go", "root/c07k3.go"}, Entry: "VerifHandlerCorners", Mode: "seq",
+			{Name: "handler-corners", Pkg: ".", Files: []string{"root/fed.go", "root/c01.go", "root/c16.go", "root/c07k3.go"}, Entry: "VerifHandlerCorners", Mode: "seq", Native: true,
 				Reach:     []string{"corner operation answered"},
 				Functions: []string{"(*Gateway).Handler", "(*Gateway).queryHandler", "(*Gateway).parseIntrospectionQuery", "introspection.(*IntrospectionResolver).*", "planner.SequentialPlanner.Plan", "planner.sanitizeSelectionSet", "executor.ParallelExecutor.Execute"}},
 		},
